@@ -97,4 +97,29 @@ theorem addUpperInode_ok' {s : St} {p : Path} {m : MNode} (ri : Real) (b : Bool)
 theorem freshId_ok' (s : St) : ∃ s', freshId s = .ok s.nextId s' ∧ s'.disk = s.disk ∧ s'.mem = s.mem :=
   ⟨_, rfl, rfl, rfl⟩
 
+theorem mkNode_err' {s : St} {r : Real} {L : Layer} (meth : Method) (n : Name) (X : Node) {e : Nat}
+    (hu : r.inUpper = true) (hL : s.disk.layer r.layer = some L) (hf : hMk L r.path n X = .error e) :
+    ∃ s', r.mkNode meth n X s = .err e s' ∧ s'.disk = s.disk ∧ s'.mem = s.mem := by
+  refine ⟨{ s with log := s.log ++ [⟨r.layer, meth⟩] }, ?_, rfl, rfl⟩
+  simp only [Real.mkNode, hu, Bool.not_true, Bool.false_eq_true, if_false]
+  rw [bind_err (layerCall_err meth hL hf)]
+
+theorem tryDeleteWhiteout_ok' {s : St} {pr : Real} {L L' : Layer} (n : Name)
+    (hL : s.disk.layer pr.layer = some L) (hf : hDeleteWhiteout L pr.path n = .ok L') :
+    ∃ s', tryDeleteWhiteout pr n s = .ok () s' ∧ s'.disk = s.disk.setLayer pr.layer L' ∧ s'.mem = s.mem := by
+  obtain ⟨s', h1, h2, h3⟩ := layerCall_ok' (f := fun L => hDeleteWhiteout L pr.path n) Method.deleteWhiteout hL hf
+  refine ⟨s', ?_, h2, h3⟩
+  unfold tryDeleteWhiteout ignoreErr
+  rw [h1]
+
+/-- the forest after `insert_child(pp, n, m)` -/
+def insertedMem (mem : Mem) (n : Name) (pp : Path) (pm m' : MNode) : Mem :=
+  ((removeSubtree mem (n :: pp)).set (n :: pp) (some m')).set pp (some { pm with kids := addNames pm.kids [n] })
+
+theorem insertChild_ok' {s : St} {pp : Path} {pm : MNode} (n : Name) (m : MNode) (h : s.mem pp = some pm) :
+    ∃ s', insertChild pp n m s = .ok () s' ∧ s'.disk = s.disk ∧ s'.mem = insertedMem s.mem n pp pm m := by
+  unfold insertChild
+  rw [bind_ok (getNode_ok h)]
+  exact ⟨_, rfl, rfl, rfl⟩
+
 end Fbr.Ovl
